@@ -1,5 +1,6 @@
 import SFV.Proofs.Measure
 import SFV.Proofs.MeasureDiscrete
+import SFV.Proofs.MeasureSample
 
 /-!
 # C06 — measurements sample the Born distribution and condition the rest correctly
@@ -19,6 +20,10 @@ re-ordering of the Fock `measure_fock`, the front-end scalings and the engine's 
   values and reported values are consistent across back ends and inverse to each other.
 * `fock_outcome_order` — `outcome[j]` is the photon number of `modes[j]` for any order of `modes`;
   `fock_index_roundtrip` — flat index of the sampled distribution ↔ multi-index.
+* `fock_born_rule`, `born_marginal`, `born_total`, `fock_probs_normalised` — the distribution `measure_fock` draws from is
+  the Born distribution of the measured modes; it marginalises and sums to the trace.
+* `rejection_envelope_dominates`, `rejection_accept_interval`, `rejection_accepted_density` — bosonic rejection sampler:
+  the envelope dominates, the accept test accepts with probability target/envelope, accepted density ∝ target.
 * `samples_dict_latest`, `samples_layout` — one row per shot, columns in ascending mode order, each column
   the latest outcome of its mode, for all measurement histories and shot counts.
 * `threshold_weights`, `reweight_normalised` — bosonic weights after a click / a post-selection sum to one.
@@ -144,6 +149,75 @@ entry of the reduced density matrix at `unIndex i`, for every number of measured
 theorem fock_index_roundtrip (D : Nat) (p : List Nat) (hp : ∀ v ∈ p, v < D) :
     unIndex (flatIndex D p) p.length D = p := unIndex_flatIndex D p hp
 
+/-! ### what `measure_fock` samples from -/
+
+/-- **fock_born_rule.**  Entry `i` of the distribution handed to `choice` (before normalisation) is the Born probability
+that every measured mode `m` holds the photon number the decoded multi-index assigns to its axis — for every register
+size, cutoff, density tensor and every order of distinct measured modes.  Together with `fock_outcome_order`
+(`outcome[j]` = that number for `modes[j]`) this is "the outcome is drawn with its Born probability". -/
+theorem fock_born_rule {K : Type} [AddCommMonoid K] (D n : Nat) (measure : List Nat) (hnd : measure.Nodup)
+    (hlt : ∀ m ∈ measure, m < n) (ρ : Tens K) (i : Nat) (hi : i < D ^ measure.length) :
+    (fockDist D n measure ρ)[i]? =
+      some (bornProb D n ρ (measure.map fun m => (m, (unIndex i measure.length D).getD (rank measure m) 0))) := by
+  unfold fockDist
+  rw [List.getElem?_map, List.getElem?_range hi]
+  simp only [Option.map_some]
+  rw [reducedDiag_eq_bornProb D n measure hnd hlt ρ _ (by simp [unIndex])]
+
+/-- **born_marginal.**  Summing the Born probability over the photon number of one further mode gives the Born
+probability of the smaller selection (so every sub-selection of measured modes is sampled with its own marginal) -/
+theorem born_marginal {K : Type} [AddCommMonoid K] (D n : Nat) (ρ : Tens K) (sel : List (Nat × Nat)) (m : Nat)
+    (hm : m < n) (hnot : m ∉ sel.map (·.1)) :
+    (sumTo D fun v => bornProb D n ρ ((m, v) :: sel)) = bornProb D n ρ sel := bornProb_marginal D n ρ sel m hm hnot
+
+/-- **born_total.**  The empty selection has Born "probability" `tr ρ`; by `born_marginal`, summing over all outcomes
+of any measured-mode list therefore gives the trace (the normalisation `dist / sum(dist)` divides by it) -/
+theorem born_total {K : Type} [AddCommMonoid K] (D n : Nat) (ρ : Tens K) :
+    bornProb D n ρ [] = traceOver D (List.range n) ρ (fun _ => 0) := bornProb_nil D n ρ
+
+/-- the order in which the unmeasured modes are summed over is irrelevant -/
+theorem born_sum_order {K : Type} [AddCommMonoid K] (D : Nat) {l1 l2 : List Nat} (h : l1.Perm l2) (ρ : Tens K)
+    (idx : Idx) : traceOver D l1 ρ idx = traceOver D l2 ρ idx := traceOver_perm D h ρ idx
+
+/-- the probabilities handed to `choice` sum to one -/
+theorem fock_probs_normalised {K : Type} [Field K] (D n : Nat) (measure : List Nat) (ρ : Tens K)
+    (h : (fockDist D n measure ρ).sum ≠ 0) : (fockProbs D n measure ρ).sum = 1 := by
+  unfold fockProbs
+  simp only [← List.sum_eq_foldl]
+  rw [sum_map_div, div_self h]
+
+/-! ### the bosonic rejection sampler (real weights and means) -/
+
+/-- **rejection_envelope_dominates.**  At every point where the Gaussian factors are non-negative the upper-bounding
+mixture (absolute weights of the non-negative peaks) is at least the target density -/
+theorem rejection_envelope_dominates {K : Type} [Field K] [LinearOrder K] [IsStrictOrderedRing K]
+    (peaks : List (Peak K)) (h : ∀ p ∈ peaks, 0 ≤ p.pref * p.e) : probDistVal peaks ≤ probUpbnd peaks :=
+  envelope_dominates peaks h
+
+/-- **rejection_accept_interval.**  The accept test `u·ub < p` holds exactly for `u < p/ub`; under domination
+(`0 ≤ p ≤ ub`) this interval lies in `[0, 1]`, i.e. a uniform `u` is accepted with probability `p/ub` -/
+theorem rejection_accept_interval {K : Type} [Field K] [LinearOrder K] [IsStrictOrderedRing K]
+    (u : K) (peaks : List (Peak K)) (hub : 0 < probUpbnd peaks) (h0 : 0 ≤ probDistVal peaks)
+    (h1 : probDistVal peaks ≤ probUpbnd peaks) :
+    (accept u peaks = true ↔ u < probDistVal peaks / probUpbnd peaks) ∧
+      0 ≤ probDistVal peaks / probUpbnd peaks ∧ probDistVal peaks / probUpbnd peaks ≤ 1 := by
+  refine ⟨?_, accept_fraction_unit _ _ hub h0 h1⟩
+  unfold accept
+  rw [decide_eq_true_iff]
+  exact accept_iff u _ _ hub
+
+/-- **rejection_accepted_density.**  Proposal density (peak chosen with `ub_weights_prob = |w|/Z`, point drawn from the
+peak) times acceptance probability equals `target / Z` with the same constant at every point: the accepted samples are
+distributed as the (normalised) target -/
+theorem rejection_accepted_density {K : Type} [Field K] [LinearOrder K] [IsStrictOrderedRing K]
+    (peaks : List (Peak K)) (Z : K) (hub : probUpbnd peaks ≠ 0) :
+    ((peaks.filter fun p => isUb p.w).map fun p => absK p.w / Z * (p.pref * p.e)).sum
+        * (probDistVal peaks / probUpbnd peaks) = probDistVal peaks / Z := accepted_density peaks Z hub
+
+/-- without domination the statement fails: every `u ∈ [0,1)` is accepted although `p/ub > 1` -/
+theorem rejection_not_dominated_counterexample {K : Type} [Field K] [LinearOrder K] [IsStrictOrderedRing K]
+    (u p ub : K) (hu : u < 1) (h0 : 0 ≤ ub) (hp : ub < p) : u * ub < p := accept_not_dominated u p ub hu h0 hp
+
 /-! ### engine: sample collation -/
 
 /-- **samples_dict_latest.**  After any history `evs` followed by a measurement command on the distinct modes
@@ -254,6 +328,15 @@ example : (2 : Rat) * 3 - 1 * 1 ≠ 0 := by norm_num
 example : ([3, 0, 1] : List Nat).Nodup ∧ (∀ m ∈ ([3, 0, 1] : List Nat), m < 4) ∧ unIndex 5 3 3 = [0, 1, 2] ∧
     keptPos (unmeasured 4 [3, 0, 1]) 3 = 2 ∧ keptPos (unmeasured 4 [3, 0, 1]) 0 = 0 := by decide
 example : (∀ v ∈ ([2, 0, 3] : List Nat), v < 4) ∧ flatIndex 4 [2, 0, 3] = 35 := by decide
+/-- a 3-mode "density tensor" with non-trivial diagonal, modes (2, 0) measured in descending order: the distribution is
+not constant and sums to the trace -/
+example : fockDist 2 3 [2, 0] (fun idx => if idx 0 = idx 1 ∧ idx 2 = idx 3 ∧ idx 4 = idx 5 then (idx 0 + 2 * idx 2 + 4 * idx 4 + 1 : Int) else 0)
+    = [4, 12, 6, 14] ∧ (5 : Nat) < 2 ^ 3 := by decide
+/-- a mixture with a negative-weight peak: envelope 5/8 ≥ target 1/2, accepted at u = 1/2, rejected at u = 9/10 -/
+example : let pk : List (Peak Rat) := [⟨3/4, 1/2, 1⟩, ⟨-1/4, 1/2, 1⟩, ⟨1/2, 1/2, 1⟩]
+    (∀ p ∈ pk, 0 ≤ p.pref * p.e) ∧ probDistVal pk = 1/2 ∧ probUpbnd pk = 5/8 ∧ accept (1/2) pk = true ∧
+      accept (9/10) pk = false ∧ ubIndices [3/4, -1/4, (1/2 : Rat)] = [0, 2] := by
+  decide +kernel
 /-- two commands, the second re-measures mode 3 and measures in descending order; 2 shots -/
 example : combineAndSort (runSamples [([3, 1], [[30, 10], [31, 11]]), ([4, 3], [[40, 33], [41, 34]])])
     = [[10, 33, 40], [11, 34, 41]] := by decide
